@@ -688,6 +688,8 @@ impl Program {
             used_qubits: HashSet::new(),
         };
         new_program.add_instructions(new_instructions);
+        // The retained definitions (e.g. calibrations) mention qubits, too.
+        new_program.rebuild_used_qubits();
         Ok(new_program)
     }
 
@@ -731,6 +733,8 @@ impl Program {
             used_qubits: HashSet::new(),
         };
         new_program.add_instructions(new_instructions);
+        // The retained definitions (e.g. calibrations) mention qubits, too.
+        new_program.rebuild_used_qubits();
         Ok((new_program, source_map))
     }
 
